@@ -603,20 +603,33 @@ func ruleFragmentDisjoint(c *Ctx) {
 			}
 			c.ob(rule, "Schema.UnmarshalJSON:deletes-tagged-names", u.Pos(), delAll,
 				"every tagged member name of Schema must be deleted from the generic map before the rest is parked in ExtraProps, or a keyword is emitted twice")
-			// x- keys are routed to Extensions and skipped (continue) before the ExtraProps store
-			routed := false
-			for _, st := range fillLoop.Body.List {
-				ifs, ok := st.(*ast.IfStmt)
+			// at every ExtraProps store the key is known not to be an x- key (continue, else-branch, ...: any form)
+			routed, nstores := true, 0
+			ast.Inspect(fillLoop.Body, func(n ast.Node) bool {
+				as, ok := n.(*ast.AssignStmt)
 				if !ok {
-					continue
+					return true
 				}
-				pre, low, found := c.prefixFilter(u, ifs.Cond)
-				if found && pre == "x-" && low && len(ifs.Body.List) > 0 {
-					if br, ok := ifs.Body.List[len(ifs.Body.List)-1].(*ast.BranchStmt); ok && br.Tok == token.CONTINUE {
-						routed = true
+				for _, l := range as.Lhs {
+					p, ok := c.apath(l)
+					if !ok || len(p.Steps) < 2 || p.Steps[len(p.Steps)-2] != "ExtraProps" {
+						continue
+					}
+					nstores++
+					excluded := false
+					for _, cl := range c.literalsAt(u, as) {
+						pre, low, found := c.prefixFilter(u, cl.e)
+						if found && pre == "x-" && low && cl.neg {
+							excluded = true
+						}
+					}
+					if !excluded {
+						routed = false
 					}
 				}
-			}
+				return true
+			})
+			routed = routed && nstores > 0
 			c.ob(rule, "Schema.UnmarshalJSON:x-routing", fillLoop.Pos(), routed,
 				"x- keys must be routed to Extensions and skipped, or they are emitted twice (extensions fragment and ExtraProps fragment)")
 		}
